@@ -945,6 +945,8 @@ class Folder:
             if name == '__class__':
                 return ClsRef(obj.cls)
             if name == '__dict__' and id(obj) in self._fresh and not any('__slots__' in c_.assigns for c_ in self.repo.mro(obj.cls)):
+                if any(k_.startswith('__') and not k_.endswith('__') for k_ in obj.fields):
+                    raise Unsupported('__dict__ of an object with private (name-mangled) attributes: the folder keeps them under their source names')
                 return obj.fields        # the instance dictionary (live: writes through it are attribute assignments); private names unmangled
             if name.startswith('_') and '__' in name[1:] and not name.endswith('__'):
                 for cc in self.repo.mro(obj.cls):
